@@ -28,15 +28,26 @@ def sh(cmd, cwd=None, env=None, timeout=7200):
 
 
 def main():
-    wt = sys.argv[1].rstrip("/")
+    src = sys.argv[1].rstrip("/")
     pid = sys.argv[2]
+    # validate on a FRESH worktree of /repo's current HEAD (the seeding worktree may predate later fix commits)
+    name0 = os.path.basename(src)
+    wt = "/tmp/seedv/" + name0
+    sh("git -C /repo worktree remove --force %s" % wt)
+    shutil.rmtree(wt, ignore_errors=True)
+    os.makedirs("/tmp/seedv", exist_ok=True)
+    rcw, ow = sh("git -C /repo worktree add -q --detach %s HEAD" % wt)
+    if rcw != 0:
+        print("cannot create worktree: " + ow)
+        return 2
+    shutil.copytree(os.path.join(src, "SEED"), os.path.join(wt, "SEED"))
     no_tests = "--no-tests" in sys.argv
     tier = "thorough" if "--tier" in sys.argv and sys.argv[sys.argv.index("--tier") + 1] == "thorough" else "quick"
     extra = [a for a in sys.argv[3:] if a.startswith("C")]  # further properties to run the change against
-    name = os.path.basename(wt)
+    name = name0
     seed = os.path.join(wt, "SEED")
     patch = os.path.join(seed, "patch.diff")
-    out = {"name": name, "property": pid, "worktree": wt, "validated_at": time.strftime("%Y-%m-%d %H:%M:%S")}
+    out = {"name": name, "property": pid, "repo_head": sh("git -C /repo rev-parse --short HEAD")[1].strip(), "validated_at": time.strftime("%Y-%m-%d %H:%M:%S")}
     meta_path = os.path.join(seed, "meta.json")
     if os.path.exists(meta_path):
         try:
@@ -48,8 +59,9 @@ def main():
     rc0, o0 = sh("PYTHONPATH=%s timeout 600 /venv/bin/python SEED/demo.py" % wt, cwd=wt)
     rca, oa = sh("git apply SEED/patch.diff", cwd=wt)
     if rca != 0:
-        out["error"] = "patch does not apply: " + oa[-400:]
+        out["error"] = "patch does not apply on /repo HEAD: " + oa[-400:]
         print(json.dumps(out, indent=1))
+        sh("git -C /repo worktree remove --force %s" % wt)
         return 2
     rc1, o1 = sh("PYTHONPATH=%s timeout 600 /venv/bin/python SEED/demo.py" % wt, cwd=wt)
     out["demo_without_change"] = rc0
@@ -75,6 +87,7 @@ def main():
     shutil.copy(os.path.join(seed, "demo.py"), os.path.join(dst, "demo.py"))
     json.dump(out, open(os.path.join(dst, "meta.json"), "w"), indent=1)
     print(json.dumps({k: out[k] for k in out if k not in ("agent_meta",)}, indent=1))
+    sh("git -C /repo worktree remove --force %s" % wt)
     return 0
 
 
